@@ -85,9 +85,10 @@ def plain_contracts(wr):
         '[C18:plain-symbol] address is Symbol ==> res == Err::<(), Error>(Error::InvalidAddress)',
         f'[C09:eh-application] (address matches Address::Constant(v) && eh_plain_value(v, eh_pe, {O}.len) is None) ==> res == Err::<(), Error>(Error::UnsupportedPointerEncoding(eh_pe))',
         f'[C09:eh-data] res is Ok ==> (address matches Address::Constant(v) && eh_plain_value(v, eh_pe, {O}.len) matches Some(pv) && eh_data_fits(pv, crate::constants::DwEhPe(eh_format(eh_pe)), size))'],
-        before=[('let offset = self.len() as u64;', 'proof { let x = val as int - old(self).wv().len as int; '
-                 'assert(x >= 0 ==> x % 0x1_0000_0000_0000_0000 == x); '
-                 'assert(x < 0 ==> x % 0x1_0000_0000_0000_0000 == x + 0x1_0000_0000_0000_0000) by { vstd::arithmetic::div_mod::lemma_mod_multiples_vanish(1, x, 0x1_0000_0000_0000_0000); }; }')])
+        after=[('let offset = self.len() as u64;', 'proof { let x = val as int - old(self).wv().len as int; '
+                 'assert(old(self).wv().len <= usize::MAX); '
+                 'if x >= 0 { vstd::arithmetic::div_mod::lemma_small_mod(x as nat, 0x1_0000_0000_0000_0000); } '
+                 'else { vstd::arithmetic::div_mod::lemma_mod_multiples_vanish(1, x, 0x1_0000_0000_0000_0000); vstd::arithmetic::div_mod::lemma_small_mod((x + 0x1_0000_0000_0000_0000) as nat, 0x1_0000_0000_0000_0000); assert(0x1_0000_0000_0000_0000 * 1 + x == x + 0x1_0000_0000_0000_0000); } }')])
     wr.splice('write_reference', ret='res', ensures=[
         '[C18:plain-reference] res == Err::<(), Error>(Error::InvalidReference)', ERR_UNCH])
 
@@ -161,7 +162,7 @@ use crate::wrspec::*;''')
                 IERR,
                 f'[C18:reloc-err-log] res is Err ==> {R1} == {R0} || (reloc_lower({ev}, {pos}) matches Some(p) && {R1} == relocs_after({R0}, p.1))']
     bi.splice('write_address', ret='res', ensures=lowered('WOp::Address { address, size }', f'{IO}.len') + [
-        f'[C18:reloc-constant] res is Ok && address is Constant ==> {R1} == {R0} && plain_lower(WOp::Address {{ address, size }}, {IO}.len) matches Some(op) && emitted({IO}, {IF}, op)',
+        f'[C18:reloc-constant] res is Ok && address is Constant ==> {R1} == {R0} && (plain_lower(WOp::Address {{ address, size }}, {IO}.len) matches Some(op) && emitted({IO}, {IF}, op))',
         f'[C18:reloc-zero] res is Ok && address is Symbol ==> emitted({IO}, {IF}, wu(0, size as nat)) && {R1}.len() == {R0}.len() + 1 && {R1}.last().offset == {IO}.len && {R1}.last().size == size'])
     bi.splice('write_offset', ret='res', ensures=lowered('WOp::Offset { val, section, size }', f'{IO}.len') + [
         f'[C18:reloc-zero] res is Ok ==> emitted({IO}, {IF}, wu(0, size as nat)) && {R1}.len() == {R0}.len() + 1 && {R1}.last().offset == {IO}.len && {R1}.last().size == size '
